@@ -1308,7 +1308,7 @@ impl RaftLogManager {
                     pop_count += 1;
                 }
             } else {
-                break;
+                continue;
             }
         }
         if pop_count > 0 {
